@@ -10,11 +10,12 @@ pub struct C10;
 /// crash points of one scenario are spread over this many jobs
 const SLICES: u64 = 8;
 
-fn scenario_for(base: u64, scen: u64) -> (Scenario, usize, Vec<String>) {
+fn scenario_for(base: u64, scen: u64, small: bool) -> (Scenario, usize, Vec<String>) {
     let mut rng = Rng::new(crate::rng::mix(&[base, scen, 0xc10]));
     let rng = &mut rng;
     let mut p = GraphParams::small(rng);
-    p.n_targets = rng.range(2, 5) as usize;
+    // (the quick tier keeps the graphs small: every crash point is replayed)
+    p.n_targets = if small { rng.range(2, 3) as usize } else { rng.range(2, 5) as usize };
     p.n_sources = rng.range(1, 2) as usize;
     p.csum_pm = 400;
     p.always_pm = 0;
@@ -24,7 +25,10 @@ fn scenario_for(base: u64, scen: u64) -> (Scenario, usize, Vec<String>) {
     // stratified: even scenarios start from an empty project (the killed
     // command creates the state database) and contain at least one
     // checksummed target; odd scenarios kill a rebuild of generated files
-    let fresh = scen % 2 == 0;
+    // scenario kinds: 0 = first build of an empty project, 1 = rebuild after a
+    // source edit, 2 = rebuild after a source edit with one generated file removed
+    let fresh = scen % 3 == 0;
+    let with_removed = scen % 3 == 2;
     if fresh && !g.csum.iter().any(|c| *c) && g.targets.len() >= 2 {
         let i = rng.below(g.targets.len() as u64 - 1) as usize;
         g.rules[i].1.stmts.push(Stmt::Stamp { only: Vec::new() });
@@ -40,7 +44,7 @@ fn scenario_for(base: u64, scen: u64) -> (Scenario, usize, Vec<String>) {
             path: s.clone(),
             bytes: source_content(&s, 1),
         });
-        if rng.chance(1, 3) {
+        if with_removed {
             // a generated file was removed as well: it is rebuilt from a record
             // that says "generated" although no file is there
             sc.history.push(Step::Remove { path: rng.pick(&g.targets).clone() });
@@ -146,12 +150,12 @@ impl Property for C10 {
     fn runs(&self, tier: Tier) -> u64 {
         match tier {
             // a job = one scenario x one slice of its crash points (plus the fault-free run)
-            Tier::Quick => 2 * SLICES,
+            Tier::Quick => 3 * SLICES,
             Tier::Thorough => 24 * SLICES,
         }
     }
     fn rule(&self) -> &'static str {
-        "per scenario (2-5 targets incl. checksummed ones; alternately a first build and a rebuild of generated files after a source edit, sometimes with one generated file removed; one build \
+        "per scenario (2-5 targets incl. checksummed ones; in turn a first build, a rebuild of generated files after a source edit, and such a rebuild with one generated file removed; one build \
          under a fixed seeded schedule) a fault-free run records the M state-changing libc calls of \
          redo processes (open/create, write to the database and its WAL, rename, unlink, lock, fork, \
          exec, exit); then for every k in 0..M and scope in {that process, whole tree} the same \
@@ -164,10 +168,10 @@ impl Property for C10 {
     fn generate(&self, rng: &mut Rng, seed: u64, tier: Tier, index: u64) -> Case {
         self.generate_with_base(20260929, rng, seed, tier, index)
     }
-    fn generate_with_base(&self, base: u64, rng: &mut Rng, _seed: u64, _tier: Tier, index: u64) -> Case {
+    fn generate_with_base(&self, base: u64, rng: &mut Rng, _seed: u64, tier: Tier, index: u64) -> Case {
         let scen = index / SLICES;
         let slice = index % SLICES;
-        let (sc, build_group, targets) = scenario_for(base, scen);
+        let (sc, build_group, targets) = scenario_for(base, scen, tier == Tier::Quick);
         let mut meta = BTreeMap::new();
         meta.insert("scenario".into(), serde_json::json!(scen));
         meta.insert("slice".into(), serde_json::json!(slice));
